@@ -9,14 +9,16 @@ RULE = ("E1: ModZip - the documented classification of a file list (Classify), t
         "path set, thorough: 3 over the full set) files over a curated path set x modes x sizes x go versions is given to the real "
         "zip.CheckFiles / zip.Create; creation must succeed exactly when the specification reports nothing invalid; the produced "
         "bytes are written out, passed through the real zip.CheckZip and zip.Unzip, and the extracted tree is compared name by name "
-        "and byte for byte with the source files reported valid. E3: random lists of up to 30 files (paths of up to 4 elements over a "
+        "and byte for byte with the source files reported valid, and the archive's content with the files the specification says belong in it; "
+        "the total-size rule (one budget of 500 MiB charged in list order) on lists of three 170 MiB files in every order, alone and with a small "
+        "file at every place, and on two lists of two that fit (created, extracted, compared). E3: random lists of up to 30 files (paths of up to 4 elements over a "
         "30-element vocabulary, half of them benign so that creation succeeds) recorded from the real code and re-derived by "
         "ModZipTrace. Non-trivial = list of at least two files.")
 
 
 def run(ctx):
     q = ctx.quick()
-    return zipcheck.run(ctx, "c05:", ["ModZipGen_files_full2"] if q else ["ModZipGen_files_full2", "ModZipGen_files_full3"], [],
+    return zipcheck.run(ctx, "c05:", ["ModZipGen_files_full2", "ModZipGen_sizes"] if q else ["ModZipGen_files_full2", "ModZipGen_sizes", "ModZipGen_files_full3"], [],
                         3000 if q else 60000, RULE,
                         assumptions=["module example.com/m at v1.0.0; sizes are classes (small = a few bytes, big = 16 MiB + 1 byte); archive/zip and the file system are trusted"])
 
